@@ -4,6 +4,7 @@
 //! repeatedly. Oracles: C05 (state is a function of the change set), C06 (rejected changes
 //! leave no trace), C08 (merged only by a threshold), C09 (cache == direct evaluation).
 
+mod identity;
 mod ops;
 mod oracle;
 
@@ -94,6 +95,24 @@ impl<'a> World<'a> {
 }
 
 pub fn run(ch: &mut Chooser, cfg: &RunCfg) -> RunResult {
+    let mut w = setup(ch, cfg);
+    w.main_loop();
+    w.res.steps = w.res.trace.count;
+    w.res.nontrivial = w.issues.len() + w.patches.len() >= 1 && w.res.counters.get("probe.cob.sync").copied().unwrap_or(0) >= 1;
+    w.res
+}
+
+/// The identity variant of the world (C04): the same replicas, but the object everybody works on
+/// is the repository's identity.
+pub fn run_identity(ch: &mut Chooser, cfg: &RunCfg) -> RunResult {
+    let mut w = setup(ch, cfg);
+    w.identity_loop();
+    w.res.steps = w.res.trace.count;
+    w.res.nontrivial = w.res.counters.get("probe.id.revision_proposed").copied().unwrap_or(0) >= 1 && w.res.counters.get("probe.cob.sync").copied().unwrap_or(0) >= 1;
+    w.res
+}
+
+fn setup<'a>(ch: &'a mut Chooser, cfg: &RunCfg) -> World<'a> {
     let seed = ch.seed;
     let own = if cfg.property.starts_with("ALL") { "*".to_string() } else { cfg.property.clone() };
     let n = 3 + ch.pick_usize(3);
@@ -102,6 +121,9 @@ pub fn run(ch: &mut Chooser, cfg: &RunCfg) -> RunResult {
         let k = [2, 3, 2, 1][ch.pick_usize(4)].min(n);
         let t = if k >= 2 && ch.pick(4) != 3 { 2 + ch.pick_usize(k - 1) } else { 1 };
         (k, t)
+    } else if cfg.property == "C04" || cfg.property == "ALLI" {
+        let k = 1 + ch.pick_usize(4.min(n));
+        (k, 1 + ch.pick_usize(k))
     } else {
         let k = 1 + ch.pick_usize(3.min(n));
         (k, 1 + ch.pick_usize(k))
@@ -179,10 +201,7 @@ pub fn run(ch: &mut Chooser, cfg: &RunCfg) -> RunResult {
             }
         }
     }
-    w.main_loop();
-    w.res.steps = w.res.trace.count;
-    w.res.nontrivial = w.issues.len() + w.patches.len() >= 1 && w.res.counters.get("probe.cob.sync").copied().unwrap_or(0) >= 1;
-    w.res
+    w
 }
 
 impl<'a> World<'a> {
